@@ -185,6 +185,49 @@ def main():
             if c.get(str(i)) != g.get(str(i)):
                 run.violation(dict(kind='operator', type=t, operator=o, a=a, b=b, chibicc_bytes=c.get(str(i)), gcc_bytes=g.get(str(i))), dict(area='operator', construct=o, type=t))
 
+    # ---------------- (b2) folded double / float arithmetic: operands chosen so that rounding the exact result to 64 bits first and to the
+    # type afterwards (the x87 / long double way) gives another value than rounding once (FLT_EVAL_METHOD 0): static initializer = run time = gcc
+    from fractions import Fraction
+    def rnd(q, prec):
+        """round the positive Fraction q to `prec` significant bits, ties to even"""
+        e = q.numerator.bit_length() - q.denominator.bit_length()
+        if Fraction(2) ** e > q: e -= 1
+        sc = Fraction(2) ** (e - prec + 1); n = q / sc; f = n.numerator // n.denominator; r = n - f
+        if r > Fraction(1, 2) or (r == Fraction(1, 2) and f % 2): f += 1
+        return f * sc
+    def dbl(): return float.fromhex('0x1.%013xp%+d' % (rng.getrandbits(52), rng.randint(-3, 3)))
+    fold = [('1.0 + (0x1p-53 + 0x1p-%d)' % k, None) for k in (65, 70, 75)] + [('(1.0 + 0x1p-52) - (0x1p-53 - 0x1p-%d)' % k, None) for k in (66, 72)]
+    def rnd_int(m, shift):
+        f = m >> shift; r = m & ((1 << shift) - 1); h = 1 << (shift - 1)
+        return f + 1 if (r > h or (r == h and f & 1)) else f
+    found = tries = 0
+    while found < (10 if run.quick() else 80) and tries < 300000:          # products: 106-bit exact results, integer arithmetic
+        tries += 1; ma, mb = (1 << 52) | rng.getrandbits(52), (1 << 52) | rng.getrandbits(52); p_ = ma * mb; L = p_.bit_length()
+        r64 = rnd_int(p_, L - 64); r64 >>= (r64.bit_length() > 64)
+        ra, rb = rnd_int(r64, 11), rnd_int(p_, L - 53); ra >>= (ra.bit_length() > 53); rb >>= (rb.bit_length() > 53)
+        if ra != rb:
+            a, b = float.fromhex('0x%xp%+d' % (ma, -52 + rng.randint(-3, 3))), float.fromhex('0x%xp%+d' % (mb, -52 + rng.randint(-3, 3)))
+            fold.append(('%s * %s' % (a.hex(), b.hex()), None)); found += 1
+    found = tries = 0
+    while found < (4 if run.quick() else 30) and tries < 60000:             # quotients: exact rational arithmetic
+        tries += 1; a, b = dbl(), dbl(); q = Fraction(a) / Fraction(b)
+        if rnd(rnd(q, 64), 53) != rnd(q, 53): fold.append(('%s / %s' % (a.hex(), b.hex()), None)); found += 1
+    ftxt = HDR + ''.join('static double fs%d = %s;\n' % (i, e) for i, (e, _) in enumerate(fold)) + 'int main(void) {\n'
+    for i, (e, _) in enumerate(fold):
+        va, vb = 'x', 'y'
+        ftxt += '  { dump(%d, &fs%d, 8); double l = %s; dump(%d, &l, 8); }\n' % (2 * i, i, e, 2 * i + 1)
+    ftxt += '  return 0; }\n'
+    (c, cw), (g, gw) = both('fold.c', ftxt)
+    if g is None: run.corr_broken.append('folding program fails under gcc: ' + gw)
+    elif c is None: run.violation(dict(kind='valid-program-rejected', why=cw), dict(area='fold', construct='rejected'))
+    else:
+        for i, (e, _) in enumerate(fold):
+            evals += 1; nontriv += 1; count('folded-double-arithmetic')
+            for k, where in ((2 * i, 'static initializer'), (2 * i + 1, 'automatic initializer')):
+                if c.get(str(k)) != g.get(str(k)):
+                    run.violation(dict(kind='folded-arithmetic', expression=e, where=where, chibicc_bytes=c.get(str(k)), gcc_bytes=g.get(str(k)),
+                                       meaning='a double constant expression whose exact value rounds differently when it is first rounded to 64 bits (long double) and then to 53'), dict(area='fold', construct=where)); break
+
     # ---------------- (c) constants ----------------
     lits = []
     for s in FVALS: lits += [s, s + 'f', s + 'L', s + 'F', s + 'l']
